@@ -309,7 +309,7 @@ def tramp_lifts():
         "ci_ctor": Lift(CI_HPP, r"coroutine_impl\(functor_type&& f, thread_id_type id, std::ptrdiff_t stack_size\)", fragment_end=frag_ctor,
                         rules=CO_SPELL + [CtorInit(CO_MEMBERS, obj="thiz", bases={"context_base": "cb_ctor(thiz, {args});"},
                                                    ctors={"m_result": "result_make({args})"})]),
-        "cb_reset_tss": Lift(CB_HPP, r"void reset_tss\(\)", rules=[COM]),
+        "cb_reset_tss": Lift(CB_HPP, r"void reset_tss\(\)", rules=[COM], optional=True),
         "cb_reset": Lift(CB_HPP, r"void reset\(\)", rules=[Sub(r"\bm_thread_id\.reset\(\)", "thread_id_reset(&thiz->m_thread_id)", None), COM]),
         "ci_reset": Lift(CI_HPP, r"void reset\(\)", rules=[
             Sub(r"\bm_fun\.reset\(\)", "functor_reset(&thiz->m_fun)", None),
